@@ -491,6 +491,36 @@ func runC14(c *Ctx) {
 	c.updateWalkContinue(r, aP, "C14.3-update-walk-one-at-a-time")
 	c.Check(r.FreshOK, "C14.0-fresh-pod-is-uncreated", r.Ctor.Name()+" result", r.Creates[0].Pos(),
 		"allocation summary: the constructor returns a new pod with empty phase and no deletion timestamp", "the constructor's result is not provably an uncreated pod")
+	// "absent API errors": the create and the delete of a pod fail only when a call they make fails -- an error the pod
+	// control concludes by itself from what it sees (a claim on its way out, say) ends the pass just the same, and under
+	// Parallel every other vacant ordinal and every pod to remove then waits for that one
+	{
+		nCtor := 0
+		scope := map[*types.Func]bool{}
+		for _, m := range []string{"realStatefulPodControl.CreateStatefulPod", "realStatefulPodControl.DeleteStatefulPod"} {
+			if fi := c.Func(load.CtrlPkg, m); fi != nil {
+				scope[fi.Obj] = true
+				for f := range c.G.ReachDirect(fi.Obj) {
+					scope[f] = true
+				}
+			}
+		}
+		for f := range scope {
+			fi := c.P.FuncInfoOf(f)
+			if fi == nil || fi.Pkg.PkgPath != load.CtrlPkg {
+				continue
+			}
+			for _, call := range callsIn(fi.Decl.Body, true) {
+				if !isErrorCtor(fi.Pkg.TypesInfo, call) {
+					continue
+				}
+				nCtor++
+				c.Check(!madeUpError(fi.Pkg.TypesInfo, call), "C14.1-pod-control-fails-only-when-a-call-fails", fmt.Sprintf("%s: %s", tableShort(c, fi), clip(types.ExprString(call), 60)), call.Pos(),
+					"wraps the error of a call", "the pod control reports an error of its own making (no call has failed): the pass ends there, and under Parallel the other vacant ordinals are not created and the pods outside the desired set are not deleted in this reconcile")
+			}
+		}
+		c.Floor("C14.1-pod-control-error-constructions", nCtor, 2)
+	}
 	// C14.1 only API errors end the pass inside the two loops
 	nRet := 0
 	for _, loop := range []ast.Stmt{r.WLoop, r.KLoop} {
